@@ -67,7 +67,32 @@ fn walk_expr(e: &Expression, out: &mut Vec<J>) {
         }
         _ => {}
     }
-    for s in e.sub_expressions() {
+    // the location of a compound node (computed from its parts) contains its sub-expressions and its own tokens
+    let subs: Vec<&Expression> = e.sub_expressions().collect();
+    if !subs.is_empty() && !matches!(e, E::ToStringWithoutUndefined { .. }) {
+        let mut children: Vec<J> = subs.iter().map(|x| loc(&x.location())).collect();
+        match e {
+            E::StaticMember { field_location, dot_location, .. } => {
+                children.push(loc(field_location));
+                children.push(loc(dot_location));
+            }
+            E::DynamicMember { bracket_location, .. } => {
+                children.push(loc(&bracket_location.0));
+                children.push(loc(&bracket_location.1));
+            }
+            E::FuncCall { paren_location, .. } => {
+                children.push(loc(&paren_location.0));
+                children.push(loc(&paren_location.1));
+            }
+            E::Cond { question_location, colon_location, .. } => {
+                children.push(loc(question_location));
+                children.push(loc(colon_location));
+            }
+            _ => {}
+        }
+        out.push(json!({"class": "expr-span", "loc": loc(&e.location()), "spelling": "", "children": children}));
+    }
+    for s in subs {
         walk_expr(s, out);
     }
 }
@@ -482,6 +507,24 @@ fn inject(rng: &mut Rng, src: &str) -> Vec<(&'static str, String, u32, u8)> {
     v.push(("duplicated style: attribute", insert_at(rng, "<view style:color=\"red\" style:color=\"blue\"/>"), code(K::DuplicatedAttribute), 2));
     v.push(("duplicated class: attribute", insert_at(rng, "<view class:a=\"{{x}}\" class:b=\"1\" class:a=\"{{y}}\"/>"), code(K::DuplicatedAttribute), 2));
     v.push(("duplicated style: attribute next to a class: attribute of that name", insert_at(rng, "<view class:a=\"{{x}}\" style:b=\"1\" style:b=\"2\"/>"), code(K::DuplicatedAttribute), 2));
+    // the same name twice with different values / aliases, for the prefixed families
+    v.push(("duplicated slot: reference (different aliases)", insert_at(rng, "<view slot:item=\"a\" slot:item=\"b\">{{ a }}{{ b }}</view>"), code(K::DuplicatedAttribute), 2));
+    v.push(("duplicated slot: reference (default alias, then another)", insert_at(rng, "<block slot:item slot:item=\"other\">{{ item }}{{ other }}</block>"), code(K::DuplicatedAttribute), 2));
+    v.push(("duplicated data: attribute", insert_at(rng, "<view data:k=\"1\" data:k=\"{{ b }}\"/>"), code(K::DuplicatedAttribute), 2));
+    v.push(("duplicated mark: attribute", insert_at(rng, "<view mark:k=\"1\" mark:k=\"2\"/>"), code(K::DuplicatedAttribute), 2));
+    v.push(("duplicated model: attribute", insert_at(rng, "<view model:value=\"{{ a }}\" model:value=\"{{ b }}\"/>"), code(K::DuplicatedAttribute), 2));
+    v.push(("duplicated change: attribute", insert_at(rng, "<view change:p=\"{{ f }}\" change:p=\"{{ o.fn }}\"/>"), code(K::DuplicatedAttribute), 2));
+    v.push(("duplicated generic: attribute", insert_at(rng, "<my-comp generic:item=\"a\" generic:item=\"b\"/>"), code(K::DuplicatedAttribute), 2));
+    v.push(("duplicated worklet: attribute", insert_at(rng, "<view worklet:w=\"f\" worklet:w=\"g\"/>"), code(K::DuplicatedAttribute), 2));
+    v.push(("duplicated wx:for-item", insert_at(rng, "<view wx:for=\"{{ l }}\" wx:for-item=\"p\" wx:for-item=\"q\">{{ p }}</view>"), code(K::DuplicatedAttribute), 2));
+    v.push(("duplicated wx:key", insert_at(rng, "<view wx:for=\"{{ l }}\" wx:key=\"a\" wx:key=\"b\">{{ item }}</view>"), code(K::DuplicatedAttribute), 2));
+    // a binding in a value that must be static, after text whose UTF-8 and UTF-16 lengths differ or after a line break (the
+    // location of the note must still be a location of the source)
+    v.push(("binding in wx:key after non-ASCII text", insert_at(rng, "<view wx:for=\"{{ l }}\" wx:key=\"\u{65e5}\u{672c}\u{8a9e}\u{30ad}\u{30fc}{{ id }}\">{{ item }}</view>"), code(K::DataBindingNotAllowed), 1));
+    v.push(("binding in generic: after a line break", insert_at(rng, "<my-comp generic:item=\"\n      {{ comp }}\"/>"), code(K::DataBindingNotAllowed), 1));
+    v.push(("binding in a template name after a line break", insert_at(rng, "<template name=\"row-\n{{ kind }}\">t</template>"), code(K::DataBindingNotAllowed), 1));
+    v.push(("binding in include src after astral characters", insert_at(rng, "<include src=\"\u{1f600}\u{1f600}\u{1f600}\u{1f600}{{ p }}\"/>"), code(K::DataBindingNotAllowed), 1));
+    v.push(("binding in worklet: after non-ASCII text", insert_at(rng, "<view worklet:w=\"\u{e9}\u{e9}\u{e9}\u{e9}\u{e9}\u{e9}{{ h }}\"/>"), code(K::DataBindingNotAllowed), 1));
     v.push(("unterminated comment at end of input", format!("{}<view/><!-- note", src), code(K::IncompleteTag), 4));
     v.push(("stray unterminated end tag at end of input", format!("{}<view>x</vi", src), code(K::IncompleteTag), 4));
     v.push(("stray unterminated end tag at end of input (top level)", format!("{}</view ", src), code(K::IncompleteTag), 4));
